@@ -378,6 +378,14 @@ divide = _binary(lambda a, b: a / b)
 true_divide = divide
 
 
+def reciprocal(a, out=None, **k):
+    r = 1.0 / (asarray(a) if isinstance(a, real_np.ndarray) else a)
+    if out is not None:
+        out[...] = r
+        return out
+    return r
+
+
 def isscalar(x):
     return isinstance(x, (Sym, builtins.int, builtins.float, real_np.number))
 
@@ -446,7 +454,7 @@ def make_np():
                'ascontiguousarray', 'arange', 'linspace', 'cumsum', 'sum', 'sqrt', 'floor', 'ceil', 'rint', 'round_', 'absolute',
                'conj', 'conjugate', 'real', 'imag', 'sin', 'cos', 'sinc', 'exp', 'log10', 'log', 'isnan', 'isfinite', 'minimum',
                'maximum', 'isclose', 'concatenate', 'diff', 'all', 'any', 'argsort', 'searchsorted', 'isscalar', 'shape',
-               'dtype', 'issubdtype', 'may_share_memory', 'atleast_1d', 'atleast_2d', 'where', 'multiply', 'add', 'subtract', 'divide', 'true_divide']:
+               'dtype', 'issubdtype', 'may_share_memory', 'atleast_1d', 'atleast_2d', 'where', 'multiply', 'add', 'subtract', 'divide', 'true_divide', 'reciprocal']:
         d[nm] = g[nm]
     d['abs'] = absolute
     d['round'] = rint
